@@ -378,3 +378,25 @@ def write_evidence(pid, tier, seed, level, coverage, assumptions, wall_s, violat
 def clip(obj, n=1200):
     s = json.dumps(obj, default=str)
     return obj if len(s) <= n else json.loads(json.dumps(s[:n] + "...<clipped>"))
+
+
+def run_apalache(module, obligations, scratch, timeout=600):
+    """Discharges inductive-invariant obligations with Apalache on /verif/spec/<module>.tla.
+    obligations: list of (name, init, inv, length).  Returns the number discharged; raises MachineryError otherwise."""
+    work = scratch.path("apalache")
+    os.makedirs(work, exist_ok=True)
+    specdir = os.path.join(work, "spec")
+    if not os.path.isdir(specdir):
+        shutil.copytree(SPEC, specdir)
+    done = 0
+    for name, init, inv, length in obligations:
+        cmd = ["apalache-mc", "check", f"--init={init}", f"--inv={inv}", f"--length={length}", f"--out-dir={os.path.join(work, 'out')}",
+               os.path.join(specdir, f"{module}.tla")]
+        try:
+            p = subprocess.run(cmd, cwd=specdir, capture_output=True, text=True, timeout=timeout)
+        except subprocess.TimeoutExpired as ex:
+            raise MachineryError(f"Apalache timeout on obligation {name}") from ex
+        if "EXITCODE: OK" not in p.stdout or "NoError" not in p.stdout:
+            raise MachineryError(f"Apalache did not discharge obligation {name}:\n" + p.stdout[-800:])
+        done += 1
+    return done
